@@ -153,6 +153,14 @@ pub fn replay(r: &Value) -> Result<String, (String, String)> {
         }
         "splay-exhaustive" => crate::splaymon::exhaustive(r["k"].as_u64().unwrap() as u8, 0, 1, true).map(|x| format!("{} shapes, {} transitions agree", x.shapes, x.transitions)).map_err(|m| ("splay:exhaustive".to_string(), m)),
         "c18" => c18_replay(r),
+        "c12-history" => {
+            let mut rng = Rng::keyed(r["seed"].as_u64().unwrap_or(1), "C12/history", r["index"].as_u64().unwrap_or(0));
+            c12_history(&mut rng, r["size"].as_u64().unwrap_or(1) as usize, 1100, &mut Default::default()).map(|_| "history deterministic".to_string())
+        }
+        "segpair" => {
+            let mut rng = Rng::keyed(r["seed"].as_u64().unwrap_or(1), "C15/segpair", r["index"].as_u64().unwrap_or(0));
+            crate::sweepmon::check_segment_pair(&mut rng, &mut Default::default()).map(|_| "pair ordered consistently".to_string()).map_err(|m| ("ordering:pair".to_string(), m))
+        }
         "nextafter" => {
             let mut rng = Rng::keyed(r["seed"].as_u64().unwrap_or(1), "C10/nextafter", r["shard"].as_u64().unwrap_or(0));
             c10_nextafter(&mut rng, 200_000).map(|n| format!("{} values agree", n))
